@@ -665,8 +665,21 @@ fn sem_compare(shape: u8, ok: u8) {
             1 => assert!(is_bool(&out, x && !y), "comparison: false orders before true (pass)"),
             _ => assert!(is_bool(&out, !x && y), "comparison: false orders before true (small pass)"),
         },
-        1 => assert!(is_bool(&out, which == 0), "null: null na null, and neither passes the other"),
-        _ => assert!(is_bool(&out, false), "null: null compared with a value of another type is false"),
+        // docs/NULL.md fixes `na`; an ordering comparison with null is only required not to hold
+        1 => {
+            if which == 0 {
+                assert!(is_bool(&out, true), "null: null na null");
+            } else {
+                assert!(is_bool(&out, false) || out.is_err(), "null: null does not pass null");
+            }
+        }
+        _ => {
+            if which == 0 {
+                assert!(is_bool(&out, false), "null: null is not `na` a value of another type");
+            } else {
+                assert!(is_bool(&out, false) || out.is_err(), "null: an ordering comparison with null does not hold");
+            }
+        }
     }
     kani::cover!(true, "comparison step reached");
     finish(out);
